@@ -124,7 +124,16 @@ pub fn run_case(a: &Args, tag: &'static str, idx: u64, k: usize, acc: &mut Acc) 
             }
         }
     }
-    let mut domain = Domain::typed();
+    // the differential oracle needs no specification: one third of the scripts also contain the calls C01 leaves
+    // unspecified (wrong-typed transfer sources, root targets) — whatever the sync API does, the async port must do
+    let mut domain = if idx % 3 == 2 {
+        let mut d = Domain::untyped();
+        d.weights.retain(|w| w.0 != "set_time");
+        d.hold_handles = false;
+        d
+    } else {
+        Domain::typed()
+    };
     domain.read_scripts = true;
     let probe = universe.paths.clone();
     let mut trace: Vec<String> = vec![];
@@ -283,6 +292,7 @@ pub fn run(a: &Args) -> Acc {
     let maxp = if a.tier == "thorough" { 14 } else { 11 };
     acc.merge(par_run(a, "c15-walk-sweep", a.n(24, 96), |a, idx, acc| walk_sweep(a, idx, maxp, acc)));
     acc.merge(par_run(a, "c15-walk-mutation", a.n(3000, 60000), walk_mutation_case));
+    acc.merge(par_run(a, "c15-transfer", a.n(1200, 20000), transfer_case));
     acc
 }
 
@@ -474,4 +484,81 @@ pub fn walk_mutation_case(a: &Args, idx: u64, acc: &mut Acc) {
         }
     }
     acc.count("walks_under_removal", 1);
+}
+
+/// Transfer operations (incl. the wrong-typed sources C01 leaves unspecified) on physical-backed stackings:
+/// the async port must take the same routes as the sync API (fast path vs stream fallback), which only shows
+/// on backends that have native rename/copy. Tiny universe because async file I/O is slow.
+pub fn transfer_case(a: &Args, idx: u64, acc: &mut Acc) {
+    let mut rng = Rng::derive(a.seed, "c15-transfer", idx);
+    let cfg = match rng.below(6) {
+        0 | 1 => Cfg::Alt(Box::new(Cfg::Phys), "/__alt".into()),
+        2 => Cfg::Phys,
+        3 => Cfg::Alt(Box::new(Cfg::Mem), "/__alt/p".into()),
+        4 => Cfg::Ovl(vec![(Cfg::Phys, "".into()), (Cfg::Mem, "".into())]),
+        _ => Cfg::Alt(Box::new(Cfg::Alt(Box::new(Cfg::Phys), "/in".into())), "/__alt".into()),
+    };
+    let sb = build(&cfg);
+    let ab = match guard(|| block_on(abuild(&cfg, vec![0, 1]))) {
+        Ok(b) => b,
+        Err(_) => return,
+    };
+    let mut pre: BTreeMap<String, Node> = BTreeMap::new();
+    pre.insert("/a".into(), Node::Dir);
+    pre.insert("/a/f".into(), Node::File(b"file-in-a".to_vec()));
+    if rng.chance(1, 2) {
+        pre.insert("/b".into(), Node::File(b"b".to_vec()));
+    }
+    if rng.chance(1, 2) {
+        pre.insert("/e".into(), Node::Dir);
+    }
+    if crate::prepop::write_tree(&sb.root, "", &pre).is_err() {
+        return;
+    }
+    ab.ctl.set_schedule(vec![0]);
+    if guard(|| block_on(awrite_tree(&ab.root, "", &pre))).map(|r| r.is_err()).unwrap_or(true) {
+        return;
+    }
+    ab.ctl.set_schedule(vec![0, 1]);
+    let paths = ["/a", "/a/f", "/b", "/c", "/a/c", "/e", "/e/g", "/c/d"];
+    let probe: Vec<String> = paths.iter().map(|s| s.to_string()).collect();
+    let mut trace = vec![];
+    acc.evaluations += 1;
+    for step in 0..rng.range(1, 3) {
+        let s = rng.pick(&paths).to_string();
+        let d = rng.pick(&paths).to_string();
+        if crate::model::is_under(&d, &s) || s == d {
+            continue;
+        }
+        let op = match rng.below(4) {
+            0 => Op::CopyFile(s, d),
+            1 => Op::MoveFile(s, d),
+            2 => Op::CopyDir(s, d),
+            _ => Op::MoveDir(s, d),
+        };
+        let rs = exec(&sb.root, &op);
+        let ra = aexec(&ab.root, &op);
+        let (ns, na) = (snapshot(&sb.root, &probe, 4096), asnapshot(&ab.root, &probe));
+        trace.push(format!("{} sync => {}  async => {}", op.render(), render_res(&rs), render_res(&ra)));
+        acc.steps += 1;
+        acc.fingerprints.insert(ns.fingerprint() ^ 0x7711);
+        let detail = J::obj().set("tag", J::s("c15-transfer")).set("seed", J::i(a.seed)).set("history", J::i(idx)).set("config", J::s(cfg.desc())).set("pre_state", J::arr(pre.keys().map(J::s))).set("trace", J::arr(trace.iter().map(J::s)));
+        let order = idx * 10 + step as u64;
+        if let Err(e) = &ra {
+            if let Some(p) = &e.panic {
+                acc.violate(Violation { property: "C13", signature: format!("panic|async:{}|{}|{}", op.name(), p.head(), p.file()), summary: format!("async {} panicked: {}", op.render(), p.message), detail, order });
+                return;
+            }
+        }
+        if rs.is_ok() != ra.is_ok() {
+            acc.violate(Violation { property: "C15", signature: format!("transfer-outcome|{}|sync:{}|async:{}|{}", op.name(), crate::ops::res_class(&rs), crate::ops::res_class(&ra), cfg.shape()), summary: format!("{}: sync => {} but async => {}", op.render(), render_res(&rs), render_res(&ra)), detail, order });
+            return;
+        }
+        let dd = diff_snaps(&ns, &na);
+        if let Some(f) = dd.first() {
+            acc.violate(Violation { property: "C15", signature: format!("transfer-state|{}|{}|{}", op.name(), f.observer, cfg.shape()), summary: format!("after {} the sync and async worlds differ at {:?}: {} sync={} async={}", op.render(), f.path, f.observer, f.expected, f.got), detail, order });
+            return;
+        }
+    }
+    acc.note("config_shapes", cfg.shape());
 }
